@@ -248,6 +248,9 @@ func RenderXML(d *XDialect) string {
 			desc := "field " + f.Name
 			if noise(5) {
 				desc = "field " + f.Name + " (see <a href=\"x\">doc</a>),\n        continued on a second line"
+			} else if noise(5) {
+				// character references, a line break among them: still nothing but a description
+				desc = "field " + f.Name + " &#8211; first line&#10;Reserved [4]uint8&#xA;&amp; a third &lt;line&gt;&#13;&#10;end"
 			}
 			if noise(2) {
 				fmt.Fprintf(&sb, "      <field type=%q name=%q%s%s>%s</field>\n", t, f.Name, en, attrs, desc)
